@@ -85,10 +85,38 @@ def obs_pots(st: State):
             for p in st.pots]
 
 
+def n1(v):
+    """None -> -1 (JSON null is not supported by the TLC Json module)"""
+    return -1 if v is None else v
+
+
+def view(st: State) -> dict:
+    """what the public read-only properties of the State report (bound to the model by TraceOps!ViewOK)"""
+    def c1(v):
+        return -1 if v is None else chip(v)
+
+    def p1(v):
+        return 0 if v is None else v + 1
+    v = {
+        'actor': p1(st.actor_index), 'turn': p1(st.turn_index), 'call': c1(st.checking_or_calling_amount),
+        'minto': c1(st.min_completion_betting_or_raising_to_amount), 'potto': c1(st.pot_completion_betting_or_raising_to_amount),
+        'maxto': c1(st.max_completion_betting_or_raising_to_amount),
+        'dealee': p1(st.hole_dealee_index), 'drawer': p1(st.stander_pat_or_discarder_index), 'shower': p1(st.showdown_index),
+        'boardcount': int(st.board_count), 'boards': [pk.cards_int(st.get_board_cards(b)) for b in st.board_indices],
+        'hands': [], 'canwin': [],
+    }
+    if st.showdown_indices or any(st.hand_killing_statuses):
+        # evaluated hands exist / do not exist (per player, board, hand type), and who can still win: at showdowns only
+        v['hands'] = [[[st.get_hand(i, b, t) is not None for t in st.hand_type_indices] for b in st.board_indices] for i in st.player_indices]
+        v['canwin'] = [bool(st.statuses[i] and st.can_win_now(i)) for i in st.player_indices]
+    return v
+
+
 def observe(st: State, log_from: int):
     d = project(st, log_from)
     d['pots'] = obs_pots(st)
     d['total'] = chip(st.total_pot_amount)
+    d['view'] = view(st)
     return d
 
 
